@@ -16,6 +16,7 @@ func TestRace_Stress(t *testing.T)        { PartStressRace.Run(t) }
 func TestRace_PriStress(t *testing.T)     { PartPriStressRace.Run(t) }
 func TestProp_Tie(t *testing.T)           { PartTie.Run(t) }
 func TestRace_Tie(t *testing.T)           { PartTieRace.Run(t) }
+func TestProp_Anyway(t *testing.T)        { PartAnyway.Run(t) }
 
 func TestReplay(t *testing.T) {
 	PartCtl.Replay(t, 1)
@@ -26,4 +27,5 @@ func TestReplay(t *testing.T) {
 	PartPriStressRace.Replay(t, 50)
 	PartTie.Replay(t, 20)
 	PartTieRace.Replay(t, 20)
+	PartAnyway.Replay(t, 20)
 }
